@@ -153,6 +153,29 @@ func writeDocFiles() {
 		mb, _, merr := f.Bytes()
 		put("pdfManyFonts", ".pdf", mb, merr)
 	}
+	// a plain single-column page with wide leading followed by a two-column page: what an extraction learns on one
+	// page (layout mode, options) must not stick to the extractor for the next call
+	{
+		var p1, p2 []pdfdoc.Placed
+		for l := 0; l < 5; l++ {
+			p1 = append(p1, pdfdoc.Placed{X: 72, Y: 700 - 20*l, Size: 12, Text: fmt.Sprintf("plain line %d of the first page", l)})
+		}
+		for l := 0; l < 8; l++ {
+			p2 = append(p2, pdfdoc.Placed{X: 72, Y: 700 - 14*l, Size: 10, Text: fmt.Sprintf("left column line %d text", l)},
+				pdfdoc.Placed{X: 330, Y: 700 - 14*l, Size: 10, Text: fmt.Sprintf("right column line %d text", l)})
+		}
+		// a third page set glyph by glyph
+		var p3 []pdfdoc.Placed
+		for l := 0; l < 3; l++ {
+			for k, ch := range "glyph by glyph line" {
+				if ch != ' ' {
+					p3 = append(p3, pdfdoc.Placed{Xf: 72 + 6.5*float64(k), Yf: float64(700 - 20*l), Sizef: 12, Text: string(ch)})
+				}
+			}
+		}
+		mb, merr := pdfdoc.BuildSimple([][]pdfdoc.Placed{p1, p2, p3}, 612, 792)
+		put("pdfMixed", ".pdf", mb, merr)
+	}
 	// six pages, each with its own marker: for selections built step by step on shared base extractors
 	{
 		var six [][]pdfdoc.Placed
@@ -374,6 +397,14 @@ func handleDoc(name string) *hdoc {
 		"reader-getpage1": nth(1, func(rd *reader.Reader) string { return page(rd, 1) }), "reader-getpage1@2": nth(2, func(rd *reader.Reader) string { return page(rd, 1) }),
 		"reader-pagecount": nth(1, count), "reader-pagecount@2": nth(2, count),
 		"ext-text": ext(1, text), "ext-text@2": ext(2, text),
+		// page 1 alone, and page 1 from an extractor derived after the base has already produced the whole text
+		"ext-page1": func() string { return text(tabula.Open(path).Pages(1)) },
+		"ext-page1@aftertext": func() string {
+			e := tabula.Open(path)
+			defer e.Close()
+			text(e)
+			return text(e.Pages(1))
+		},
 		"ext-pagecount": ext(1, pc), "ext-pagecount@2": ext(2, pc),
 	}}
 }
@@ -440,7 +471,7 @@ func init() {
 		if docFilePaths["pdfSix"] != "" {
 			out = append(out, forkDoc("pdfSix"))
 		}
-		for _, n := range []string{"pdfA", "pdfSharedRes", "pdfKidsLoop", "pdfKidsMissing", "pdfBadStream"} {
+		for _, n := range []string{"pdfA", "pdfMixed", "pdfSharedRes", "pdfKidsLoop", "pdfKidsMissing", "pdfBadStream"} {
 			if docFilePaths[n] != "" {
 				out = append(out, handleDoc(n))
 			}
